@@ -1,1 +1,357 @@
-import RaftLogModel.Model.Sys
+/-
+C07 — Every live entry can be read back, whatever the payload cache evicted.
+
+After any history of accepted, Raft-legal writes (vote, append, purge, commit,
+user data) interleaved with flushes, worker steps of any outcome, `workerIdle`
+and `drain` steps on a store opened on an empty directory, `read(a, b)` and the
+dump iterator return every live entry of the range with its log id and its
+ORIGINAL payload and no error — for every configuration: any chunk limits and
+any payload-cache limits (including 0 items / 0 bytes), whatever the cache has
+evicted and however far the flush worker has got.
+
+KNOWN FINDING (why the theorem is `_partial`). The eviction boundary is a LOG
+ID. After a `truncate`, an entry can be appended whose log id is at or below a
+boundary published earlier; it is then evicted while its record is still only
+in the open chunk (pending buffer) or in flight to a chunk file, and `read`
+returns `err eof` / `err notFound` (model and implementation agree; the
+counterexample at the end of this file is computed by the model). The theorem
+is therefore stated for histories WITHOUT `truncate` ops: then log ids only
+grow (every appended id is above every earlier one).
+
+Quantification: every `cfg`; every history of `.call/.flush/.worker/
+.workerIdle/.drain` steps from `Sys.fresh cfg` whose calls, in order, are legal
+and accepted by the reference log starting from the empty log; no index equal
+to u64::MAX (`Op.small`, the class excluded by C16); values the Rust types can
+hold (`Op.WF`: u64 id components, payloads / user data below 4 GiB — beyond
+that the record codec is not injective, so this is needed for ANY read from
+disk); no `truncate`; the worker alive at the end (a dead worker stays dead, so
+it was alive all along).
+
+Helper lemmas: Proofs/ReadPathRef.lean (`RefinesNoCache`), ReadPathWorker.lean
+(worker steps), ReadPathStore.lean (`RInv`), ReadPath.lean (`ReadInv`).
+-/
+import RaftLogModel.Proofs.ReadPath
+namespace RaftLog
+
+/-! ### 1. Refinement without the residency clause -/
+
+/-- `Refines` (C01) implies `RefinesNoCache`. -/
+theorem c07_refines_noCache (s : Store) (r : RefLog) (h : Refines s r) : RefinesNoCache s r :=
+  h.noCache
+
+/-- **Step lemma for `RefinesNoCache`** (the analogue of `c01_step` with no
+hypothesis on the cache): one legal, accepted, small op — `truncate` included —
+on a store that refines `r` up to residency, with no chunk file at or beyond
+the journal end: the call returns `ok`, the new store refines the new reference
+log up to residency, the journal end only moved forward and every file created
+has an id in `[old end, new end)`. Any cache limits, any amount of eviction. -/
+theorem c07_refinesNoCache_step (s : Store) (r r' : RefLog) (fsHas : Nat → Bool) (op : Op)
+    (h : RefinesNoCache s r) (hfs : ∀ i, s.openEnd ≤ i → fsHas i = false)
+    (hl : r.legal op = true) (hc : r.call op = .ok r') (hsm : op.small) :
+    (∃ seg, (s.call fsHas op).1 = .ok seg) ∧ RefinesNoCache (s.call fsHas op).2.1 r' ∧
+      Growth0 s (s.call fsHas op).2.1 (s.call fsHas op).2.2 := by
+  obtain ⟨seg, s', effs, heq, href, hg⟩ := call_refinesNC fsHas h hfs hl hc hsm
+  rw [heq]
+  exact ⟨⟨seg, rfl⟩, href, hg⟩
+
+/-! ### 2. The read-path invariant -/
+
+/-- What `ReadInv y r` says, item by item. `y` has a live store `s` and a live
+worker; the journal invariant `J y` holds (C11); `s` refines `r` up to
+residency; the spec entries are well-formed; and for every index entry
+`x = (index, d)`:
+
+* (where) `d` belongs to a spec entry `(d.id, p)`, its chunk `d.chunk` is the
+  open chunk or a closed one, and the chunk's byte string (file ++ in flight ++
+  pending) holds `encRecord (.append d.id p)` at `[d.off - d.chunk, + d.size)`;
+* (resident or written) `d.id` is in the cache, or `d.chunk` is older than the
+  worker's newest file (`Worker.cur`);
+* (boundary) if `d.id` is at or below the eviction boundary then `d.chunk` is
+  older than the worker's newest file; the boundary is at or below `last`;
+* (file entries) the same holds for every `(id, prevLast)` in the worker's
+  file list or announced by a queued `appendFile`: entries at or below
+  `prevLast` live in chunks older than `id`;
+* a cached payload of a live id is the spec payload. -/
+theorem c07_readInv_spec {y : Sys} {r : RefLog} (h : ReadInv y r) :
+    ∃ s, y.store = some s ∧ y.worker.pc ≠ .dead ∧ J y ∧ RefinesNoCache s r ∧ r.EntriesWF ∧
+      (∀ x ∈ s.log, ∃ p, (x.2.id, p) ∈ r.entries ∧
+        Located s y.fs y.worker x.2 (encRecord (.append x.2.id p))) ∧
+      (∀ x ∈ s.log, (∃ p, (x.2.id, p) ∈ s.cache.items) ∨ x.2.chunk < y.worker.cur) ∧
+      EntOK s y.worker.cur s.cache.lastEvictable ∧
+      (∀ f ∈ y.worker.fents, EntOK s f.id f.prevLast) ∧
+      (∀ e ∈ s.cache.items, ∀ a ∈ r.entries, a.1 = e.1 → a.2 = e.2) := by
+  have hJ := h.toJ
+  obtain ⟨s, hs, hd, _, hr, hew⟩ := h
+  exact ⟨s, hs, hd, hJ, hr.ref, hew, hr.loc, hr.res, hr.bnd, hr.ents, hr.cval⟩
+
+/-- **(i) / (ii).** Under the invariant every live entry `(id, payload)` with
+index entry `d` is (i) resident with its payload, or (ii) `d.chunk` is the id of
+a closed chunk, nothing is in flight to that chunk's file, and the FILE holds
+at positions `[d.off - d.chunk, + d.size)` exactly `encRecord (.append id
+payload)` (already written, not merely in flight). -/
+theorem c07_resident_or_on_disk {y : Sys} {r : RefLog} (h : ReadInv y r) :
+    ∃ s, y.store = some s ∧ ∀ x ∈ s.log, ∃ p, (x.2.id, p) ∈ r.entries ∧
+      (s.cache.get x.2.id = some p ∨
+        ((∃ c ∈ s.closed, c.id = x.2.chunk) ∧ y.worker.inflight x.2.chunk = [] ∧
+          ∃ f, y.fs.find x.2.chunk = some f ∧ x.2.off - x.2.chunk + x.2.size ≤ f.data.length ∧
+            (f.data.drop (x.2.off - x.2.chunk)).take x.2.size = encRecord (.append x.2.id p))) :=
+  h.resident_or_on_disk
+
+/-- **The auxiliary boundary invariant.** For the boundary value
+`b = s.cache.lastEvictable`, every index entry with id at or below `b` has its
+chunk closed and fully written: nothing is in flight to the chunk's file and
+the file has the chunk's full length. (Inside `ReadInv` this is kept in the
+stable form "`d.chunk` is older than the worker's newest file", `EntOK`; the
+boundary is only ever set, in `startSync`, to `f.prevLast` of the single file
+`f` left in the worker's list, and every `(id, prevLast)` the worker holds or
+will be told about satisfies the same predicate.) -/
+theorem c07_boundary_written {y : Sys} {r : RefLog} (h : ReadInv y r) :
+    ∃ s, y.store = some s ∧ ∀ x ∈ s.log, optLe (some x.2.id) s.cache.lastEvictable = true →
+      ∃ c ∈ s.closed, c.id = x.2.chunk ∧ y.worker.inflight c.id = [] ∧
+        (fdata y.fs c.id).length = lastOff c.offsets - c.id :=
+  h.boundary_written
+
+/-- **ReadInv ⇒ read = spec read.** The reported state is the reference log's,
+every `read(a, b)` returns exactly the reference entries of `[a, b)` (each
+lookup is a cache hit with the right payload, or `loadPayload` finds the chunk
+closed, reads exactly the record's bytes from its file and decodes them by
+`record_rt`), and so does the dump iterator. -/
+theorem c07_read_of_inv {y : Sys} {r : RefLog} (h : ReadInv y r) :
+    ∃ s, y.store = some s ∧ s.st = r.state ∧
+      (∀ a b, (s.read y.fs a b).1 = (r.read a b).map (fun e => ReadItem.ok e.1 e.2)) ∧
+      s.iter y.fs = r.entries.map (fun e => ReadItem.ok e.1 e.2) :=
+  h.read
+
+/-! ### 3. (A) the fresh store, (B) every step -/
+
+/-- (A) -/
+theorem c07_inv_fresh (cfg : Cfg) : ReadInv (Sys.fresh cfg) {} := fresh_readInv cfg
+
+/-- (B) a legal, accepted, small, well-formed call that is not a `truncate`
+(chunk rotations, purge of closed chunks and cache eviction included): the
+invariant is kept against the new reference log and the call returns `ok`. -/
+theorem c07_inv_call (y : Sys) (r r' : RefLog) (op : Op) (h : ReadInv y r)
+    (hl : r.legal op = true) (hc : r.call op = .ok r') (hop : op.c07) :
+    ReadInv (y.step (.call op)) r' ∧ ∃ seg, (y.call op).1 = .ok seg :=
+  h.call hl hc hop.1 hop.2.1 hop.2.2
+
+/-- (B) -/
+theorem c07_inv_flush (y : Sys) (r : RefLog) (cb : Option Nat) (h : ReadInv y r) :
+    ReadInv (y.step (.flush cb)) r := h.flush cb
+
+/-- (B) any outcome (`ok`, `eio` at a sync, `short k`: failed syncs and short
+writes included), provided the worker is not dead afterwards. -/
+theorem c07_inv_worker (y : Sys) (r : RefLog) (out : Outcome) (h : ReadInv y r)
+    (halive : (y.step (.worker out)).worker.pc ≠ .dead) : ReadInv (y.step (.worker out)) r :=
+  h.worker out halive
+
+/-- (B) -/
+theorem c07_inv_workerIdle (y : Sys) (r : RefLog) (h : ReadInv y r)
+    (halive : (y.step .workerIdle).worker.pc ≠ .dead) : ReadInv (y.step .workerIdle) r :=
+  h.workerIdle halive
+
+/-- (B) -/
+theorem c07_inv_drain (y : Sys) (r : RefLog) (h : ReadInv y r) : ReadInv (y.step .drain) r :=
+  h.drain
+
+/-- The invariant after every truncate-free history with a live worker. -/
+theorem c07_inv_reachable (cfg : Cfg) (steps : List Step) (r : RefLog)
+    (hsteps : ∀ st ∈ steps, st.journal = true)
+    (hlegal : RefLog.run {} (stepOps steps) = some r)
+    (hops : ∀ op ∈ stepOps steps, op.c07)
+    (halive : ((Sys.fresh cfg).run steps).worker.pc ≠ .dead) :
+    ReadInv ((Sys.fresh cfg).run steps) r :=
+  (run_readInv steps _ {} r (fresh_readInv cfg) hsteps hlegal hops halive).1
+
+/-! ### 4. The property -/
+
+/-- **C07 (histories in which log ids only grow: NO `truncate` op).** For every
+configuration — any chunk limits, any payload-cache limits including 0 — and
+every history of calls, flushes, worker steps (any outcome), `workerIdle` and
+`drain` steps on a store opened on an empty directory: if the calls, in order,
+are legal and accepted by the reference log starting from the empty log,
+reaching `r`, every op is `small` and well-formed (`Op.c07`: `Op.small`,
+`Op.WF`, not a `truncate`) and the worker is alive at the end, then the final
+store reports `r`'s state, every `read(a, b)` returns exactly `r`'s entries in
+`[a, b)` as `ok id payload` — original payload, no error — and so does the
+dump iterator; moreover every call along the way returned `ok`.
+
+Partial (`_partial`): `truncate` ops are excluded because of the known finding
+described in the header (log-id eviction boundary vs. re-appended ids); see the
+model-computed counterexample at the end of this file. -/
+theorem c07_reads_partial (cfg : Cfg) (steps : List Step) (r : RefLog)
+    (hsteps : ∀ st ∈ steps, st.journal = true)
+    (hlegal : RefLog.run {} (stepOps steps) = some r)
+    (hops : ∀ op ∈ stepOps steps, op.c07)
+    (halive : ((Sys.fresh cfg).run steps).worker.pc ≠ .dead) :
+    (∃ s, ((Sys.fresh cfg).run steps).store = some s ∧ s.st = r.state ∧
+      (∀ a b, (s.read ((Sys.fresh cfg).run steps).fs a b).1
+          = (r.read a b).map (fun e => ReadItem.ok e.1 e.2)) ∧
+      s.iter ((Sys.fresh cfg).run steps).fs = r.entries.map (fun e => ReadItem.ok e.1 e.2)) ∧
+    (∀ pre op post, steps = pre ++ Step.call op :: post →
+      ∃ seg, (((Sys.fresh cfg).run pre).call op).1 = .ok seg) := by
+  obtain ⟨h, hcalls⟩ := run_readInv steps _ {} r (fresh_readInv cfg) hsteps hlegal hops halive
+  exact ⟨h.read, hcalls⟩
+
+/-! ### 5. Worker steps and drains are invisible to readers -/
+
+/-- Steps that are not caller-thread writes: worker progress and cache drains. -/
+def Step.background : Step → Bool
+  | .worker _ => true
+  | .workerIdle => true
+  | .drain => true
+  | _ => false
+
+theorem stepOps_filter_background (steps : List Step) :
+    stepOps (steps.filter (fun st => !st.background)) = stepOps steps := by
+  induction steps with
+  | nil => rfl
+  | cons st rest ih =>
+    rw [List.filter_cons]
+    cases st with
+    | call op => rw [if_pos (by simp [Step.background])]; simp only [stepOps, ih]
+    | flush cb => rw [if_pos (by simp [Step.background])]; simp only [stepOps, ih]
+    | drop => rw [if_pos (by simp [Step.background])]; simp only [stepOps, ih]
+    | openWith c => rw [if_pos (by simp [Step.background])]; simp only [stepOps, ih]
+    | worker out => rw [if_neg (by simp [Step.background])]; simp only [stepOps, ih]
+    | workerIdle => rw [if_neg (by simp [Step.background])]; simp only [stepOps, ih]
+    | drain => rw [if_neg (by simp [Step.background])]; simp only [stepOps, ih]
+
+theorem journal_of_filter_background {steps1 steps2 : List Step}
+    (hsame : steps1.filter (fun st => !st.background) = steps2.filter (fun st => !st.background))
+    (h1 : ∀ st ∈ steps1, st.journal = true) : ∀ st ∈ steps2, st.journal = true := by
+  intro st hst
+  by_cases hb : st.background = true
+  · cases st <;> simp [Step.background] at hb <;> rfl
+  · have : st ∈ steps2.filter (fun st => !st.background) := by
+      simp only [List.mem_filter]; exact ⟨hst, by simpa using hb⟩
+    rw [← hsame] at this
+    exact h1 st (List.mem_filter.mp this).1
+
+/-- **Corollary.** Inserting or removing worker steps (any outcome),
+`workerIdle` and `drain` steps anywhere in a truncate-free history does not
+change what readers see: two histories with the same calls and flushes, in the
+same order, both leaving the worker alive, report the same state and return the
+same result for every read and for the dump iterator (both equal the
+reference). -/
+theorem c07_worker_steps_invisible (cfg : Cfg) (steps1 steps2 : List Step) (r : RefLog)
+    (hsame : steps1.filter (fun st => !st.background) = steps2.filter (fun st => !st.background))
+    (hsteps : ∀ st ∈ steps1, st.journal = true)
+    (hlegal : RefLog.run {} (stepOps steps1) = some r)
+    (hops : ∀ op ∈ stepOps steps1, op.c07)
+    (halive1 : ((Sys.fresh cfg).run steps1).worker.pc ≠ .dead)
+    (halive2 : ((Sys.fresh cfg).run steps2).worker.pc ≠ .dead) :
+    let y1 := (Sys.fresh cfg).run steps1
+    let y2 := (Sys.fresh cfg).run steps2
+    ∃ s1 s2, y1.store = some s1 ∧ y2.store = some s2 ∧ s1.st = s2.st ∧
+      (∀ a b, (s1.read y1.fs a b).1 = (s2.read y2.fs a b).1) ∧ s1.iter y1.fs = s2.iter y2.fs := by
+  intro y1 y2
+  have hopsEq : stepOps steps2 = stepOps steps1 := by
+    rw [← stepOps_filter_background steps2, ← hsame, stepOps_filter_background]
+  obtain ⟨⟨s1, hs1, hst1, hrd1, hit1⟩, _⟩ := c07_reads_partial cfg steps1 r hsteps hlegal hops halive1
+  obtain ⟨⟨s2, hs2, hst2, hrd2, hit2⟩, _⟩ := c07_reads_partial cfg steps2 r
+    (journal_of_filter_background hsame hsteps) (by rw [hopsEq]; exact hlegal)
+    (by rw [hopsEq]; exact hops) halive2
+  exact ⟨s1, s2, hs1, hs2, hst1.trans hst2.symm, fun a b => (hrd1 a b).trans (hrd2 a b).symm,
+    hit1.trans hit2.symm⟩
+
+/-- The same for the cache configuration: two configurations that differ only
+in the payload-cache limits return the same result for every read after the
+same truncate-free history. -/
+theorem c07_cache_limits_invisible (cfg : Cfg) (cacheItems cacheCap : Nat) (steps : List Step) (r : RefLog)
+    (hsteps : ∀ st ∈ steps, st.journal = true)
+    (hlegal : RefLog.run {} (stepOps steps) = some r)
+    (hops : ∀ op ∈ stepOps steps, op.c07)
+    (halive1 : ((Sys.fresh cfg).run steps).worker.pc ≠ .dead)
+    (halive2 : ((Sys.fresh { cfg with cacheItems := cacheItems, cacheCap := cacheCap }).run steps).worker.pc
+      ≠ .dead) :
+    let y1 := (Sys.fresh cfg).run steps
+    let y2 := (Sys.fresh { cfg with cacheItems := cacheItems, cacheCap := cacheCap }).run steps
+    ∃ s1 s2, y1.store = some s1 ∧ y2.store = some s2 ∧ s1.st = s2.st ∧
+      (∀ a b, (s1.read y1.fs a b).1 = (s2.read y2.fs a b).1) ∧ s1.iter y1.fs = s2.iter y2.fs := by
+  intro y1 y2
+  obtain ⟨⟨s1, hs1, hst1, hrd1, hit1⟩, _⟩ := c07_reads_partial cfg steps r hsteps hlegal hops halive1
+  obtain ⟨⟨s2, hs2, hst2, hrd2, hit2⟩, _⟩ :=
+    c07_reads_partial { cfg with cacheItems := cacheItems, cacheCap := cacheCap } steps r hsteps hlegal
+      hops halive2
+  exact ⟨s1, s2, hs1, hs2, hst1.trans hst2.symm, fun a b => (hrd1 a b).trans (hrd2 a b).symm,
+    hit1.trans hit2.symm⟩
+
+/-! ### Non-vacuity -/
+
+/-- A cache that may hold nothing, chunk rotation after every second record. -/
+def c07Cfg : Cfg := { maxRecords := 2, cacheItems := 0, cacheCap := 0 }
+
+/-- A truncate-free history with appends in two terms, a flush with a short
+write, a failed sync (`eio`), drains, a purge, and worker steps. -/
+def c07Example : List Step :=
+  [ .call (.saveVote ⟨1, 7⟩),
+    .call (.append [(⟨1, 0⟩, [1, 2, 3]), (⟨1, 1⟩, [4]), (⟨1, 2⟩, [5, 6])]),
+    .flush (some 0),
+    .worker .ok, .worker (.short 3), .worker .ok,
+    .workerIdle,
+    .call (.append [(⟨2, 3⟩, [9])]),
+    .drain,
+    .call (.purge ⟨1, 0⟩),
+    .flush none,
+    .worker .eio,
+    .workerIdle,
+    .call (.commit ⟨2, 3⟩),
+    .call (.append [(⟨2, 4⟩, [7, 7])]),
+    .drain ]
+
+/-- The hypotheses of `c07_reads_partial` hold for it, and the reference log
+ends with four live entries. -/
+example :
+    (∀ st ∈ c07Example, st.journal = true) ∧
+    RefLog.run {} (stepOps c07Example) = some
+      { vote := some ⟨1, 7⟩, last := some ⟨2, 4⟩, committed := some ⟨2, 3⟩, purged := some ⟨1, 0⟩,
+        entries := [(⟨1, 1⟩, [4]), (⟨1, 2⟩, [5, 6]), (⟨2, 3⟩, [9]), (⟨2, 4⟩, [7, 7])] } ∧
+    (∀ op ∈ stepOps c07Example, op.c07) ∧
+    ((Sys.fresh c07Cfg).run c07Example).worker.pc ≠ .dead := by
+  refine ⟨by decide, by decide, ?_, by decide⟩
+  intro op hop
+  simp only [c07Example, stepOps, List.mem_cons, List.not_mem_nil, or_false] at hop
+  rcases hop with h | h | h | h | h | h <;> subst h <;>
+    simp [Op.c07, Op.small, Op.WF, smallId, LogId.WF, bytesWF, U64, U32]
+
+/- And the implementation side of the same history, computed by the model:
+with a cache that holds only the newest entry, the read returns all four live
+entries with their payloads; three of them are cache misses served from the
+chunk files. -/
+set_option maxRecDepth 100000 in
+example :
+    ∃ s, ((Sys.fresh c07Cfg).run c07Example).store = some s ∧
+      (s.read ((Sys.fresh c07Cfg).run c07Example).fs 0 10).1 =
+        [ReadItem.ok ⟨1, 1⟩ [4], ReadItem.ok ⟨1, 2⟩ [5, 6], ReadItem.ok ⟨2, 3⟩ [9], ReadItem.ok ⟨2, 4⟩ [7, 7]] ∧
+      s.cache.items = [(⟨2, 4⟩, [7, 7])] ∧
+      (s.read ((Sys.fresh c07Cfg).run c07Example).fs 0 10).2.miss = 3 := by
+  refine ⟨_, rfl, ?_, ?_, ?_⟩ <;> decide
+
+/-! ### Why `_partial`: the counterexample with `truncate` -/
+
+/-- Three entries are appended, flushed and synced (the boundary becomes
+`(1, 2)`); index 1 and 2 are truncated; a new entry `(1, 1)` is appended: its id
+is at or below the boundary, so it is evicted at once, while its record is
+still in the pending buffer of the open chunk. -/
+def c07Counter : List Step :=
+  [ .call (.append [(⟨1, 0⟩, [1]), (⟨1, 1⟩, [2]), (⟨1, 2⟩, [3])]),
+    .flush none,
+    .workerIdle,
+    .call (.truncate 1),
+    .call (.append [(⟨1, 1⟩, [9])]) ]
+
+/- All hypotheses of `c07_reads_partial` except "no `truncate`" hold, the
+reference log has the live entry `((1, 1), [9])`, and `read` returns `err eof`
+for it. -/
+set_option maxRecDepth 100000 in
+example :
+    (∀ st ∈ c07Counter, st.journal = true) ∧
+    ((Sys.fresh c07Cfg).run c07Counter).worker.pc ≠ .dead ∧
+    (RefLog.run {} (stepOps c07Counter)).map (·.entries) = some [(⟨1, 0⟩, [1]), (⟨1, 1⟩, [9])] ∧
+    ∃ s, ((Sys.fresh c07Cfg).run c07Counter).store = some s ∧
+      (s.read ((Sys.fresh c07Cfg).run c07Counter).fs 0 10).1 =
+        [ReadItem.ok ⟨1, 0⟩ [1], ReadItem.err .eof] := by
+  refine ⟨by decide, by decide, by decide, _, rfl, by decide⟩
+
+end RaftLog
